@@ -185,6 +185,20 @@ def construction_routes(tier, rng, rep):
                     F = copy.deepcopy(fsa.FSA(copy.deepcopy(d), [0]))
                 Mr = M if route != "out" else Model(set(d), M.E)     # the target->labels route does not add hidden vertices (all targets are keys here)
                 err = coherence_error(F, Mr)
+                if not err and route in ("graph", "out") and M.E:
+                    # the caller's dictionary is the caller's: a second automaton built from the same dictionary, and the
+                    # dictionary itself, do not change when the first automaton gets a parallel edge
+                    src = copy.deepcopy(d) if route == "graph" else copy.deepcopy(od)
+                    keep = copy.deepcopy(src)
+                    mk = (lambda x: fsa.FSA(x, [0])) if route == "graph" else (lambda x: fsa.FSA(x, [0], graph_dict=False))
+                    F1, F2 = mk(src), mk(src)
+                    (a_, l_, b_) = sorted(M.E, key=repr)[0]
+                    F1.add_edges([(a_, b_, "zz")])
+                    if src != keep:
+                        err = f"the caller's dictionary was modified by an edit of the automaton built from it: {src} (was {keep})"
+                    else:
+                        err = coherence_error(F2, Mr)
+                        err = err and "a second automaton built from the same dictionary changed when the first was edited: " + err
             except Exception as e:
                 err = f"raised {type(e).__name__}: {e}"
             rep.case(key=(repr(d), route), nontrivial=nontriv, sample={"graph_dict": {str(k): v for k, v in d.items()}, "route": route} if rep.evaluations == 50 else None)
